@@ -663,5 +663,430 @@ theorem createRoots_cons {s : Schema} {x : QDef} {rest : QDoc} {q q' : Query}
             exact ⟨_, ⟨n, root, rfl, by simpa [Valid.rootOf] using hroot, isSome_false hnone,
               fun _ => by simpa using hlen, rfl⟩, h⟩
 
+def fnames (q : Query) : List String := q.fragments.map (·.name)
+def onames (q : Query) : List String := q.operations.map (·.name)
+/-- `Query.find_fragment` / `find_operation` as a function of the list of names only -/
+def ffOf (names : List String) (n : String) : Option Nat := names.findIdx? (· == n)
+
+theorem findFragment_eq (q : Query) : q.findFragment = ffOf (fnames q) := by
+  funext n; simp [Query.findFragment, ffOf, fnames, List.findIdx?_map, Function.comp_def]
+theorem findOperation_eq (q : Query) : q.findOperation = ffOf (onames q) := by
+  funext n; simp [Query.findOperation, ffOf, onames, List.findIdx?_map, Function.comp_def]
+
+theorem ffOf_none {names : List String} {n : String} (h : ffOf names n = none) : n ∉ names := by
+  unfold ffOf at h
+  rw [List.findIdx?_eq_none_iff] at h
+  intro hm
+  simpa using h n hm
+
+theorem ffOf_some {names : List String} {n : String} {i : Nat} (h : ffOf names n = some i) :
+    names[i]? = some n := by
+  unfold ffOf at h
+  rw [List.findIdx?_eq_some_iff_getElem] at h
+  obtain ⟨hlt, hp, _⟩ := h
+  rw [List.getElem?_eq_getElem hlt]
+  simpa using hp
+
+theorem ffOf_of_nodup {names : List String} {n : String} {i : Nat} (hnd : names.Nodup)
+    (h : names[i]? = some n) : ffOf names n = some i := by
+  unfold ffOf
+  rw [List.findIdx?_eq_some_iff_getElem]
+  obtain ⟨hlt, hi⟩ := List.getElem?_eq_some_iff.mp h
+  refine ⟨hlt, by simp [hi], ?_⟩
+  intro j hji hj
+  have hj' : names[j] = n := by simpa using hj
+  have := (List.pairwise_iff_getElem.mp hnd) j i (by omega) hlt hji
+  exact this (hj'.trans hi.symm)
+
+/-- the part of `q'` that `create_roots` added for the document `d` -/
+structure RootsOk (s : Schema) (d : QDoc) (q q' : Query) : Prop where
+  fnames : fnames q' = fnames q ++ Valid.fragNames d
+  onames : onames q' = onames q ++ Valid.opNames d
+  fnodup : (C06Sound.fnames q).Nodup → (C06Sound.fnames q').Nodup
+  onodup : (C06Sound.onames q).Nodup → (C06Sound.onames q').Nodup
+  fnew : ∀ f ∈ q'.fragments, f ∈ q.fragments ∨ f.sels = []
+  onew : ∀ o ∈ q'.operations, o ∈ q.operations ∨ o.sels = []
+  fmono : ∀ f ∈ q.fragments, f ∈ q'.fragments
+  omono : ∀ o ∈ q.operations, o ∈ q'.operations
+  frag : ∀ n on sels, QDef.frag n on sels ∈ d → ∃ t, s.findType on = some t ∧
+    ({ name := n, on := t, sels := [] } : RFragment) ∈ q'.fragments
+  op : ∀ kind name vars sels, QDef.op kind name vars sels ∈ d → ∃ n root, name = some n ∧
+    Valid.rootOf s kind = some root ∧ (kind = .subscription → sels.length = 1) ∧
+    ({ name := n, kind := kind, objectId := root, sels := [] } : ROperation) ∈ q'.operations
+  noselset : ∀ sels, QDef.selset sels ∉ d
+
+theorem createRoots_ok (s : Schema) : ∀ (d : QDoc) (q q' : Query), createRoots s d q = .ok q' → RootsOk s d q q'
+  | [], q, q', h => by
+    simp only [createRoots, pure, Except.pure, Except.ok.injEq] at h
+    subst h
+    constructor <;> first | simp [Valid.fragNames, Valid.opNames] | exact fun _ h => Or.inl h
+  | x :: rest, q, q', h => by
+    obtain ⟨q1, hstep, hrest⟩ := createRoots_cons h
+    have ih := createRoots_ok s rest q1 q' hrest
+    cases x with
+    | selset sels => exact hstep.elim
+    | frag n on sels =>
+      obtain ⟨t, ht, hnone, rfl⟩ := hstep
+      have hf1 : fnames { q with fragments := q.fragments ++ [{ name := n, on := t, sels := [] }] } = fnames q ++ [n] := by
+        simp [fnames]
+      constructor
+      · rw [ih.fnames, hf1]; simp [Valid.fragNames]
+      · rw [ih.onames]; simp [Valid.opNames, onames]
+      · intro hnd
+        apply ih.fnodup
+        rw [hf1, List.nodup_append]
+        rw [findFragment_eq] at hnone
+        refine ⟨hnd, by simp, ?_⟩
+        intro a ha b hb
+        simp at hb; subst hb
+        intro hab; subst hab
+        exact ffOf_none hnone ha
+      · intro hnd; exact ih.onodup hnd
+      · intro f hf
+        rcases ih.fnew f hf with h1 | h1
+        · simp at h1
+          rcases h1 with h1 | h1
+          · exact Or.inl h1
+          · right; rw [h1]
+        · exact Or.inr h1
+      · intro o ho; exact ih.onew o ho
+      · intro f hf; exact ih.fmono f (by simp [hf])
+      · intro o ho; exact ih.omono o ho
+      · intro n' on' sels' hm
+        rcases List.mem_cons.mp hm with heq | hm
+        · cases heq
+          exact ⟨t, ht, ih.fmono _ (by simp)⟩
+        · exact ih.frag _ _ _ hm
+      · intro kind name vars sels' hm
+        rcases List.mem_cons.mp hm with heq | hm
+        · cases heq
+        · exact ih.op _ _ _ _ hm
+      · intro sels' hm
+        rcases List.mem_cons.mp hm with heq | hm
+        · cases heq
+        · exact ih.noselset _ hm
+    | op kind name vars sels =>
+      obtain ⟨n, root, rfl, hroot, hnone, hsub, rfl⟩ := hstep
+      have hf1 : onames { q with operations := q.operations ++ [{ name := n, kind := kind, objectId := root, sels := [] }] } = onames q ++ [n] := by
+        simp [onames]
+      constructor
+      · rw [ih.fnames]; simp [Valid.fragNames, fnames]
+      · rw [ih.onames, hf1]; simp [Valid.opNames]
+      · intro hnd; exact ih.fnodup hnd
+      · intro hnd
+        apply ih.onodup
+        rw [hf1, List.nodup_append]
+        rw [findOperation_eq] at hnone
+        refine ⟨hnd, by simp, ?_⟩
+        intro a ha b hb
+        simp at hb; subst hb
+        intro hab; subst hab
+        exact ffOf_none hnone ha
+      · intro f hf; exact ih.fnew f hf
+      · intro o ho
+        rcases ih.onew o ho with h1 | h1
+        · simp at h1
+          rcases h1 with h1 | h1
+          · exact Or.inl h1
+          · right; rw [h1]
+        · exact Or.inr h1
+      · intro f hf; exact ih.fmono f hf
+      · intro o ho; exact ih.omono o (by simp [ho])
+      · intro n' on' sels' hm
+        rcases List.mem_cons.mp hm with heq | hm
+        · cases heq
+        · exact ih.frag _ _ _ hm
+      · intro kind' name' vars' sels' hm
+        rcases List.mem_cons.mp hm with heq | hm
+        · cases heq
+          exact ⟨n, root, rfl, hroot, hsub, ih.omono _ (by simp)⟩
+        · exact ih.op _ _ _ _ hm
+      · intro sels' hm
+        rcases List.mem_cons.mp hm with heq | hm
+        · cases heq
+        · exact ih.noselset _ hm
+
+theorem mem_fragNames {d : QDoc} {n on sels} (h : QDef.frag n on sels ∈ d) : n ∈ Valid.fragNames d := by
+  unfold Valid.fragNames
+  rw [List.mem_filterMap]
+  exact ⟨_, h, rfl⟩
+theorem mem_opNames {d : QDoc} {k n v sels} (h : QDef.op k (some n) v sels ∈ d) : n ∈ Valid.opNames d := by
+  unfold Valid.opNames
+  rw [List.mem_filterMap]
+  exact ⟨_, h, rfl⟩
+
+theorem set_map_self {α β} (g : α → β) (l : List α) (i : Nat) (a b : α) (h : l[i]? = some a) (hg : g b = g a) :
+    (l.set i b).map g = l.map g := by
+  apply List.ext_getElem?
+  intro j
+  simp only [List.getElem?_map, List.getElem?_set]
+  split
+  · rename_i hij; subst hij
+    obtain ⟨hlt, hi⟩ := List.getElem?_eq_some_iff.mp h
+    simp [hlt, hi, hg]
+  · rfl
+
+/-- what the fold of `resolve_fragment` / `resolve_operation` over (a suffix of) the document does -/
+structure FoldOk (s : Schema) (rest : QDoc) (q qF : Query) : Prop where
+  fnames_eq : fnames qF = fnames q
+  onames_eq : onames qF = onames q
+  fkeep : ∀ i : Nat, (∀ n on sels, QDef.frag n on sels ∈ rest → (fnames q)[i]? ≠ some n) →
+    qF.fragments[i]? = q.fragments[i]?
+  okeep : ∀ i : Nat, (∀ k n v sels, QDef.op k (some n) v sels ∈ rest → (onames q)[i]? ≠ some n) →
+    qF.operations[i]? = q.operations[i]?
+  frag : ∀ n on sels, QDef.frag n on sels ∈ rest → ∃ t id f0 rs, s.findType on = some t ∧
+    ffOf (fnames q) n = some id ∧ q.fragments[id]? = some f0 ∧
+    qF.fragments[id]? = some { f0 with sels := f0.sels ++ rs } ∧
+    CorrL s (ffOf (fnames q)) t sels rs ∧ (Valid.isComposite t = false → sels = [])
+  op : ∀ kind name vars sels, QDef.op kind name vars sels ∈ rest → ∃ n root o id op0 rs, name = some n ∧
+    Valid.rootOf s kind = some root ∧ s.objects[root]? = some o ∧
+    ffOf (onames q) n = some id ∧ q.operations[id]? = some op0 ∧
+    qF.operations[id]? = some { op0 with sels := op0.sels ++ rs } ∧
+    CorrL s (ffOf (fnames q)) (.object root) sels rs
+
+theorem fold_ok (s : Schema) : ∀ (rest : QDoc) (q qF : Query), rest.foldlM (resolveDef s) q = .ok qF →
+    (Valid.fragNames rest).Nodup → (Valid.opNames rest).Nodup → FoldOk s rest q qF
+  | [], q, qF, h, _, _ => by
+    simp only [List.foldlM_nil, pure, Except.pure, Except.ok.injEq] at h
+    subst h
+    constructor <;> simp
+  | x :: rest, q, qF, h, hfn, hon => by
+    rw [List.foldlM_cons] at h
+    obtain ⟨q1, hstep, hrest⟩ := bind_ok h
+    cases x with
+    | selset sels => simp [resolveDef, panic'] at hstep
+    | frag n on sels =>
+      obtain ⟨t, id, f, rs, ht, hid, hf, hrs, rfl⟩ := resolveDef_frag hstep
+      have hfn' : n ∉ Valid.fragNames rest ∧ (Valid.fragNames rest).Nodup := by
+        simpa [Valid.fragNames] using hfn
+      have hon' : (Valid.opNames rest).Nodup := by simpa [Valid.opNames] using hon
+      have ih := fold_ok s rest _ qF hrest hfn'.2 hon'
+      rw [findFragment_eq] at hid
+      have hnid : (fnames q)[id]? = some n := ffOf_some hid
+      have hlt : id < q.fragments.length := (List.getElem?_eq_some_iff.mp hf).1
+      have hf1 : fnames { q with fragments := q.fragments.set id { f with sels := f.sels ++ rs } } = fnames q := by
+        simp only [fnames]; exact set_map_self _ _ _ _ _ hf rfl
+      have ho1 : onames { q with fragments := q.fragments.set id { f with sels := f.sels ++ rs } } = onames q := rfl
+      have hkeep_id : qF.fragments[id]? = some { f with sels := f.sels ++ rs } := by
+        rw [ih.fkeep id]
+        · simp [hlt]
+        · intro n' on' sels' hm hc
+          rw [hf1, hnid] at hc
+          cases hc
+          exact hfn'.1 (mem_fragNames hm)
+      have hcorr := resolveSelection_corr hrs
+      rw [findFragment_eq] at hcorr
+      constructor
+      · rw [ih.fnames_eq, hf1]
+      · rw [ih.onames_eq, ho1]
+      · intro i hi
+        rw [ih.fkeep i]
+        · have : id ≠ i := by
+            intro e; subst e
+            exact hi n on sels List.mem_cons_self hnid
+          simp [this]
+        · intro n' on' sels' hm
+          rw [hf1]; exact hi n' on' sels' (List.mem_cons_of_mem _ hm)
+      · intro i hi
+        rw [ih.okeep i]
+        intro k n' v sels' hm
+        rw [ho1]; exact hi k n' v sels' (List.mem_cons_of_mem _ hm)
+      · intro n' on' sels' hm
+        rcases List.mem_cons.mp hm with heq | hm
+        · cases heq
+          exact ⟨t, id, f, rs, ht, hid, hf, hkeep_id, hcorr.1, hcorr.2⟩
+        · obtain ⟨t', id', f1, rs', h1, h2, h3, h4, h5, h6⟩ := ih.frag n' on' sels' hm
+          rw [hf1] at h2 h5
+          have hne : id ≠ id' := by
+            intro e; subst e
+            have := ffOf_some h2
+            rw [hnid] at this
+            cases this
+            exact hfn'.1 (mem_fragNames hm)
+          refine ⟨t', id', f1, rs', h1, h2, ?_, h4, h5, h6⟩
+          simpa [List.getElem?_set, hne] using h3
+      · intro kind name vars sels' hm
+        rcases List.mem_cons.mp hm with heq | hm
+        · cases heq
+        · obtain ⟨n', root, o, id', op0, rs', h1, h2, h3, h4, h5, h6, h7⟩ := ih.op kind name vars sels' hm
+          rw [hf1] at h7
+          exact ⟨n', root, o, id', op0, rs', h1, h2, h3, h4, h5, h6, h7⟩
+    | op kind name vars sels =>
+      obtain ⟨root, o, n, id, vs, rs, op, hroot, ho, rfl, hid, hop, hrs, rfl⟩ := resolveDef_op hstep
+      have hfn' : (Valid.fragNames rest).Nodup := by simpa [Valid.fragNames] using hfn
+      have hon' : n ∉ Valid.opNames rest ∧ (Valid.opNames rest).Nodup := by
+        simpa [Valid.opNames] using hon
+      have ih := fold_ok s rest _ qF hrest hfn' hon'.2
+      rw [findOperation_eq] at hid
+      have hnid : (onames q)[id]? = some n := ffOf_some hid
+      have hlt : id < q.operations.length := (List.getElem?_eq_some_iff.mp hop).1
+      have ho1 : onames { q with variables := q.variables ++ vs, operations := q.operations.set id { op with sels := op.sels ++ rs } } = onames q := by
+        simp only [onames]; exact set_map_self _ _ _ _ _ hop rfl
+      have hf1 : fnames { q with variables := q.variables ++ vs, operations := q.operations.set id { op with sels := op.sels ++ rs } } = fnames q := rfl
+      have hkeep_id : qF.operations[id]? = some { op with sels := op.sels ++ rs } := by
+        rw [ih.okeep id]
+        · simp [hlt]
+        · intro k n' v sels' hm hc
+          rw [ho1, hnid] at hc
+          cases hc
+          exact hon'.1 (mem_opNames hm)
+      rw [← fieldsOf_object ho] at hrs
+      have hcorr := objSels_corr s _ _ _ sels rs hrs
+      rw [findFragment_eq] at hcorr
+      change CorrL s (ffOf (fnames q)) _ _ _ at hcorr
+      constructor
+      · rw [ih.fnames_eq, hf1]
+      · rw [ih.onames_eq, ho1]
+      · intro i hi
+        rw [ih.fkeep i]
+        intro n' on' sels' hm
+        rw [hf1]; exact hi n' on' sels' (List.mem_cons_of_mem _ hm)
+      · intro i hi
+        rw [ih.okeep i]
+        · have : id ≠ i := by
+            intro e; subst e
+            exact hi kind n vars sels List.mem_cons_self hnid
+          simp [this]
+        · intro k n' v sels' hm
+          rw [ho1]; exact hi k n' v sels' (List.mem_cons_of_mem _ hm)
+      · intro n' on' sels' hm
+        rcases List.mem_cons.mp hm with heq | hm
+        · cases heq
+        · obtain ⟨t', id', f1, rs', h1, h2, h3, h4, h5, h6⟩ := ih.frag n' on' sels' hm
+          rw [hf1] at h2 h5
+          exact ⟨t', id', f1, rs', h1, h2, h3, h4, h5, h6⟩
+      · intro kind' name' vars' sels' hm
+        rcases List.mem_cons.mp hm with heq | hm
+        · cases heq
+          exact ⟨n, root, o, id, op, rs, rfl, hroot, ho, hid, hop, hkeep_id, hcorr⟩
+        · obtain ⟨n', root', o', id', op0, rs', h1, h2, h3, h4, h5, h6, h7⟩ := ih.op kind' name' vars' sels' hm
+          rw [ho1] at h4
+          rw [hf1] at h7
+          have hne : id ≠ id' := by
+            intro e; subst e
+            have := ffOf_some h4
+            rw [hnid] at this
+            cases this
+            subst h1
+            exact hon'.1 (mem_opNames hm)
+          refine ⟨n', root', o', id', op0, rs', h1, h2, h3, h4, ?_, h6, h7⟩
+          simpa [List.getElem?_set, hne] using h5
+
+theorem forIn_ok {α} (body : α → PUnit → Outcome (ForInStep PUnit))
+    (hy : ∀ a r, body a PUnit.unit = .ok r → r = .yield PUnit.unit) :
+    ∀ (l : List α) (u : PUnit), forIn l PUnit.unit body = .ok u → ∀ a ∈ l, body a PUnit.unit = .ok (.yield PUnit.unit)
+  | [], _, _, a, ha => by simp at ha
+  | x :: xs, u, h, a, ha => by
+    rw [List.forIn_cons] at h
+    obtain ⟨r, hr, h⟩ := bind_ok h
+    have := hy x r hr
+    subst this
+    rcases List.mem_cons.mp ha with rfl | ha
+    · exact hr
+    · exact forIn_ok body hy xs u h a ha
+
+theorem forIn_check_ok {α} (g : α → Outcome Unit) (l : List α) (u : PUnit)
+    (h : forIn l PUnit.unit (fun a _ => do g a; pure (ForInStep.yield PUnit.unit)) = .ok u) :
+    ∀ a ∈ l, g a = .ok () := by
+  intro a ha
+  have := forIn_ok (fun a _ => do g a; pure (ForInStep.yield PUnit.unit)) (by
+    intro a r hr
+    obtain ⟨_, _, hr⟩ := bind_ok hr
+    simp only [pure, Except.pure, Except.ok.injEq] at hr
+    exact hr.symm) l u h a ha
+  obtain ⟨_, hg, _⟩ := bind_ok this
+  exact hg
+
+theorem forIn_cond_ok {α} (c : α → Bool) (msg : α → String) (l : List α) (u : PUnit)
+    (h : forIn l PUnit.unit (fun a _ => if c a = true then do
+        (fail' (msg a) : Outcome PUnit); pure (ForInStep.yield PUnit.unit)
+      else pure (ForInStep.yield PUnit.unit)) = .ok u) :
+    ∀ a ∈ l, c a = false := by
+  intro a ha
+  have := forIn_ok (fun a _ => if c a = true then do
+        (fail' (msg a) : Outcome PUnit); pure (ForInStep.yield PUnit.unit)
+      else pure (ForInStep.yield PUnit.unit)) (by
+    intro a r hr
+    split at hr
+    · simp [fail', bind, Except.bind] at hr
+    · simp only [pure, Except.pure, Except.ok.injEq] at hr
+      exact hr.symm) l u h a ha
+  split at this
+  · simp [fail', bind, Except.bind] at this
+  · rename_i hc; simpa using hc
+
+theorem validateTypenamePresence_ok {s : Schema} {q : Query} (h : validateTypenamePresence s q = .ok ()) :
+    (∀ f ∈ q.fragments, f.on.isAbstract = true → containsTypename q f.on f.sels = true) ∧
+    (∀ f ∈ q.fragments, fieldsHaveTypenameList s q f.sels = .ok ()) ∧
+    (∀ o ∈ q.operations, fieldsHaveTypenameList s q o.sels = .ok ()) := by
+  unfold validateTypenamePresence at h
+  obtain ⟨u1, h1, h⟩ := bind_ok h
+  obtain ⟨u2, h2, h⟩ := bind_ok h
+  obtain ⟨u3, h3, h⟩ := bind_ok h
+  refine ⟨?_, forIn_check_ok _ _ _ h2, forIn_check_ok _ _ _ h3⟩
+  intro f hf ha
+  have := forIn_cond_ok (fun f : RFragment => f.on.isAbstract && !containsTypename q f.on f.sels) _ _ _ h1 f hf
+  simp only [ha, Bool.true_and, Bool.not_eq_false'] at this
+  exact this
+
+theorem validateTypeConditions_ok {s : Schema} {q : Query} (h : validateTypeConditions s q = .ok ()) :
+    (∀ f ∈ q.fragments, typeConditionsList s q f.on f.sels = .ok ()) ∧
+    (∀ o ∈ q.operations, typeConditionsList s q (.object o.objectId) o.sels = .ok ()) := by
+  unfold validateTypeConditions at h
+  obtain ⟨u1, h1, h⟩ := bind_ok h
+  obtain ⟨u2, h2, h⟩ := bind_ok h
+  exact ⟨forIn_check_ok _ _ _ h1, forIn_check_ok _ _ _ h2⟩
+
+theorem validateSubscriptions_ok {q : Query} (h : validateSubscriptions q = .ok ()) :
+    ∀ o ∈ q.operations, o.kind = .subscription → (rootFieldCount q (depthFuel q) [] o.sels).1 = 1 := by
+  unfold validateSubscriptions at h
+  obtain ⟨u1, h1, h⟩ := bind_ok h
+  intro o ho hk
+  have := forIn_cond_ok (fun o : ROperation => o.kind == OpKind.subscription &&
+    (rootFieldCount q (depthFuel q) [] o.sels).fst != 1) _ _ _ h1 o ho
+  simpa [hk] using this
+
+/-! ## subscription root: the depth-first count with a shared visited set -/
+
+/-- number of fragment indices below `nf` not yet visited -/
+def unvisited (nf : Nat) (V : List Nat) : Nat := (List.range nf).countP (fun i => !V.contains i)
+
+theorem unvisited_mono {nf : Nat} {V V' : List Nat} (h : ∀ x ∈ V, x ∈ V') : unvisited nf V' ≤ unvisited nf V := by
+  unfold unvisited
+  apply List.countP_mono_left
+  intro x _ hx
+  simp only [Bool.not_eq_true', List.contains_eq_mem, decide_eq_false_iff_not] at hx ⊢
+  exact fun hm => hx (h x hm)
+
+theorem countP_cons_visited (fid : Nat) (V : List Nat) (hV : fid ∉ V) : ∀ (l : List Nat), fid ∈ l →
+    l.countP (fun i => !(fid :: V).contains i) + 1 ≤ l.countP (fun i => !V.contains i)
+  | [], h => by simp at h
+  | a :: l, h => by
+    have hmono : l.countP (fun i => !(fid :: V).contains i) ≤ l.countP (fun i => !V.contains i) := by
+      apply List.countP_mono_left
+      intro x _ hx
+      simp only [Bool.not_eq_true', List.contains_eq_mem, decide_eq_false_iff_not, List.mem_cons, not_or] at hx ⊢
+      exact hx.2
+    by_cases ha : a = fid
+    · subst ha
+      have e1 : (!(a :: V).contains a) = false := by simp
+      have e2 : (!V.contains a) = true := by simp [hV]
+      rw [List.countP_cons, List.countP_cons, e1, e2]
+      simp only [Bool.false_eq_true, if_false, if_true]
+      omega
+    · have hl : fid ∈ l := by
+        rcases List.mem_cons.mp h with h | h
+        · exact absurd h.symm ha
+        · exact h
+      have ih := countP_cons_visited fid V hV l hl
+      have : (!(fid :: V).contains a) = (!V.contains a) := by
+        simp [ha]
+      rw [List.countP_cons, List.countP_cons, this]
+      omega
+
+theorem unvisited_cons {nf fid : Nat} {V : List Nat} (hlt : fid < nf) (hV : fid ∉ V) :
+    unvisited nf (fid :: V) + 1 ≤ unvisited nf V :=
+  countP_cons_visited fid V hV _ (List.mem_range.mpr hlt)
+
 end C06Sound
 end GqlVerif
